@@ -980,13 +980,36 @@ def normalization_tie(rep):
             add("concatenation of two subsets", IrregularFunctionalData.concatenate(parent[0:1], parent[1:2]), info)
         except Exception:  # noqa: BLE001
             pass            # relabelling of concatenated irregular data is C13's subject (F9c)
+    # dense data: every dimension's grid against norm_dense (fresh objects, after an accepted `argvals` assignment, subsets)
+    from FDApy.representation.argvals import DenseArgvals
+
+    def add_dense(label, obj):
+        for dim in obj.argvals.keys():
+            pts = np.asarray(obj.argvals[dim], float)
+            st = np.asarray(obj.argvals_stand[dim], float)
+            t = run.add(f"norm_dense_ok (1#1000000000000) {C.qlist(pts)} {C.qlist(st)}")
+            todo.append((t, label + f" ({dim})", {"points": [pts.tolist()], "argvals_stand": [st.tolist()]}))
+    for rnd in range(4):
+        m1, m2 = int(rng.integers(3, 8)), int(rng.integers(2, 6))
+        g1 = np.unique(np.round((rng.uniform(-2, 6) + rng.uniform(0, 5, size=m1)) * 32) / 32)
+        g2 = np.unique(np.round((rng.uniform(-2, 6) + rng.uniform(0, 3, size=m2)) * 32) / 32)
+        if len(g1) < 2 or len(g2) < 2:
+            continue
+        d1 = fd.dense(g1, np.round(rng.normal(size=(3, len(g1))) * 16) / 16)
+        add_dense("freshly built dense dataset", d1)
+        add_dense("dense subset", d1[1:3])
+        d2 = fd.dense([g1, g2], np.round(rng.normal(size=(2, len(g1), len(g2))) * 16) / 16)
+        add_dense("freshly built 2-D dense dataset", d2)
+        moved = np.round((g1 * 3.0 - 1.0) * 32) / 32
+        d1.argvals = DenseArgvals({"input_dim_0": moved})
+        add_dense("dense dataset after its sampling points were replaced", d1)
     res = run.run()
     for t, label, info in todo:
         rep.case(("normalization", label, str(info["points"])), kind="normalization/" + label)
         if not res[t]:
             rep.disagreements_checked += 1
             rep.violation(f"standardised sampling points of a {label} are not the affine image of ITS sampling points on [0, 1] "
-                          "(Model/Normalize.v norm_irr: global minimum and maximum of the object itself)", info)
+                          "(Model/Normalize.v norm_irr / norm_dense: minimum and maximum of the object itself)", info)
 
 
 def run(rep, props, replay=None):
